@@ -156,6 +156,28 @@ CHECKS = {
         technique='Lean 4 theorems over hand kernels tied by correspondence; generated ma dispatch table + decide +kernel; textbook-reference oracle (exact / step / after seed decay), ranges, orderings, homogeneity, selector equality',
         ref='4 (C15)',
         note='sqrt is abstract in the kernels (theorems for every non-negative sqrt; the driver uses an integer square root to 1e-20). Not proved: var >= 0, cci/trima/stoch exact equality to Spec (covered by the reference oracle). Open findings C15-F1 (di out of range from its sum/mean seeds) and C15-F2 (smma NaN by overflow on long sequential input).'),
+    'C16': dict(
+        text='Proof over a hand model of metrics.trades, of the pandas daily-return pipeline (pct_change with its NaN first row, '
+             'max_drawdown / the Calmar drawdown with fillna(0), the rational ingredients of Sharpe/Sortino/Omega/CAGR) and of the equity '
+             'sampling of both simulators: for every trade list total = winners + losers + break-even, win rate with the code\'s guard, '
+             'net = sum PnL = gross profit + gross loss, net %, longs + shorts = total and percentages = shares summing to 100, fee = sum, '
+             'largest/average win and loss, expectancy = mean PnL of the decided trades, and the vectorised NumPy streak formula = longest '
+             'win run / longest loss run / signed current run (zeros break runs); max drawdown = the standard drawdown of the whole '
+             'balance series (start included) and <= 0, Calmar\'s drawdown likewise, Sortino downside = sum neg^2 / N; sample count = '
+             '1 + floor((n-1)/1440) + 1 in the step simulator and for every chunk dividing a day; a futures sample = wallet + open PnL, '
+             'a spot sample = free + all reserved quote + value of held base, both invariant under permutation of the routes. The one '
+             'full statement the unchanged code still violates (fast mode with only 3D/1W/1M routes records one sample per multi-day chunk '
+             'instead of one per day) is kept with a _partial theorem, the exact hypothesis, the theorem of what the code computes for '
+             'every route list and a kernel-checked counter-witness, and is recorded as known finding C16-F5. Tie: correspondence of the '
+             'model with the real metrics.trades on structured synthetic trade lists and balance series and with real backtests (chunk, '
+             'sampled indices, sample values).',
+        technique='Lean 4 induction over trade lists / balance series / session lengths (core Rat, omega, Mathlib field_simp in lemmas); '
+                  'line-protocol correspondence with real metrics.trades and real backtests; Fraction-recomputed identity oracle, '
+                  'standard-definition ratio oracle, equity series captured by wrapping save_daily_portfolio_balance',
+        ref='4 (C16)',
+        note='sqrt and real powers are not modelled: Sharpe, Sortino, annual return and Calmar are tied through their rational '
+             'ingredients (mean, sample variance, downside mean square, growth, years) and recomputed in floats by the oracle; '
+             'serenity_index is not covered. ClosedTrade.pnl/fee themselves belong to C06.'),
     'C17': dict(
         text='Proof over the generated size_to_qty / risk_to_qty / risk_to_size / floor_with_precision / round_decimals_down / '
              'limit_stop_loss / max_timeframe and the three timeframe tables: never overspends (fees included), never over-risks, '
